@@ -308,6 +308,11 @@ def gen_case(rng):
             calls.append(dict(kind="try", imp=rng.choice(cands), ns=rng.randrange(nns)))
         else:
             calls.append(dict(kind="newcell"))
+    if nns >= 2 and rng.random() < 0.3:
+        # calls of one cell may be given different namespace stacks (e.g. a debugger frame): a view of the pool
+        for c in calls:
+            if c["kind"] in ("code", "symbol"):
+                c["stack"] = rng.sample(range(nns), rng.randint(1, nns))
     return dict(universe=uni, db=db, preload=preload, nss=nss, calls=calls)
 
 
@@ -679,6 +684,7 @@ def run_history(case, scratch_base):
                 continue
             before = _snapshot(nss, ids)
             co["before"] = before
+            stk = [nss[i] for i in call_stack(case, call)]
             co["failed_before"] = sorted(stmt_key(str(i)) for i in A._IMPORT_FAILED)
             snaps = []
             rec = Recorder(ids, on_stmt=lambda ev: snaps.append(_snapshot(nss, ids)))
@@ -686,25 +692,25 @@ def run_history(case, scratch_base):
             if call["kind"] == "code":
                 code = call["code"]
                 try:
-                    co["missing"] = [str(x) for x in A.find_missing_imports(code, nss)]
+                    co["missing"] = [str(x) for x in A.find_missing_imports(code, stk)]
                 except SyntaxError:
                     co["missing"] = "syntax"
                 except Exception as e:
                     co["missing"] = "exc:" + type(e).__name__
                 with rec:
                     try:
-                        res = A.auto_import(code, nss, db=db, autoimported=autoimported)
+                        res = A.auto_import(code, stk, db=db, autoimported=autoimported)
                     except Exception as e:
                         res = "exc:" + type(e).__name__
             elif call["kind"] == "symbol":
                 code = call["name"]
                 try:
-                    co["missing"] = [call["name"]] if A.symbol_needs_import(call["name"], nss) else []
+                    co["missing"] = [call["name"]] if A.symbol_needs_import(call["name"], stk) else []
                 except Exception as e:
                     co["missing"] = "exc:" + type(e).__name__
                 with rec:
                     try:
-                        res = A.auto_import_symbol(call["name"], nss, db=db, autoimported=autoimported)
+                        res = A.auto_import_symbol(call["name"], stk, db=db, autoimported=autoimported)
                     except Exception as e:
                         res = "exc:" + type(e).__name__
             else:
@@ -725,7 +731,7 @@ def run_history(case, scratch_base):
                 sni = []
                 for d in co["missing"]:
                     try:
-                        sni.append(bool(A.symbol_needs_import(d, nss)))
+                        sni.append(bool(A.symbol_needs_import(d, stk)))
                     except Exception as e:
                         sni.append("exc:" + type(e).__name__)
                 co["sni_after"] = sni
@@ -733,7 +739,7 @@ def run_history(case, scratch_base):
             co["run"] = None
             if code is not None and res is True and call["kind"] == "code":
                 merged = {}
-                for ns in nss:
+                for ns in stk:
                     merged.update(ns)
 
                 def child(merged=merged, code=code):
@@ -784,10 +790,15 @@ def _added(before, after):
     return out
 
 
+def call_stack(case, call):
+    """indices (into the pool case["nss"]) of the namespaces given to this call, most global first"""
+    return list(call.get("stack") or range(len(case["nss"])))
+
+
 def target_index(case, call):
     if call["kind"] == "try":
         return call["ns"]
-    return len(case["nss"]) - 1
+    return call_stack(case, call)[-1]
 
 
 def _stmt_events(co):
@@ -840,7 +851,7 @@ def oracle_c06(case, obs):
                 if k not in heads:
                     fails.append(dict(what="added a name the code does not read", name=k, **_ctx(case, ci, co)))
                 # -- that were unbound in every given namespace
-                outer = [(ni, e) for ni, b in enumerate(before) for e in b if e[0] == k]
+                outer = [(ni, e) for ni, b in enumerate(before) if ni in call_stack(case, call) for e in b if e[0] == k]
                 if outer:
                     same = all(e[2] == i for _, e in outer)
                     regm = reg_before["mods"].get(k)
@@ -901,7 +912,7 @@ def oracle_c07(case, obs):
             continue
         res = co["result"]
         before, after = co["before"], co["after"]
-        tgt = len(case["nss"]) - 1
+        tgt = target_index(case, call)
         added = _added(before, after)
         missing = co.get("missing")
         if isinstance(res, str) and res.startswith("exc:"):
@@ -987,12 +998,12 @@ def model_request(case, obs):
             m = co.get("missing")
             if not isinstance(m, list):
                 return []
-            calls.append(dict(kind="symbol", name=call["name"], sni=m))
+            calls.append(dict(kind="symbol", name=call["name"], sni=m, stack=call_stack(case, call)))
         else:
             m = co.get("missing")
             if isinstance(m, str) and m.startswith("exc:"):
                 return []
-            calls.append(dict(kind="code", missing=(None if m == "syntax" else m)))
+            calls.append(dict(kind="code", missing=(None if m == "syntax" else m), stack=call_stack(case, call)))
     nss = []
     for spec in case["nss"]:
         nss.append(sorted([k, v] for k, v in spec.items()))
